@@ -194,6 +194,10 @@ func bodyBytes(variant string, valid any) []byte {
 }
 
 func oplBytes(v string) []byte {
+	// a whole document handed in by the runner (programs of OplTypes.tla / OplGrammar.tla)
+	if strings.HasPrefix(v, "prog:") {
+		return []byte(v[5:])
+	}
 	switch v {
 	case "valid_opl":
 		return []byte("class U implements Namespace {}\nclass D implements Namespace { related: { a: U[] } permits = { p: (ctx: Context): boolean => this.related.a.includes(ctx.subject) } }")
